@@ -107,3 +107,43 @@ package http2
 //@   requires fr != nil
 //@   assigns fr.maxReadSize
 //@   ensures [C19:configured-read-limit-taken-as-given] fr.maxReadSize == min(v, 16777215)
+
+//@ -- C08, response side (write.go): the HEADERS frame of a header block carries the block's END_STREAM flag however
+//@ -- the block is split, and an interim 100-continue block contains nothing but its own :status field
+//@ ghost var lastWH HeadersFrameParam
+//@ ghost var whCount int
+//@ func (*Framer).WriteHeaders :: f, p -> err
+//@   trusted
+//@   assigns unrestricted, lastWH, whCount
+//@   ensures lastWH == p && whCount == old(whCount) + 1
+//@ func (*Framer).WriteContinuation :: f, streamID, endHeaders, headerBlockFragment -> err
+//@   trusted
+//@   assigns unrestricted
+//@ func writeContext.Framer :: ctx -> fr
+//@   trusted
+//@   pure
+//@   ensures fr != nil
+//@ -- the encoder handed out with a buffer writes into that buffer
+//@ ghost var lastEncoded seq[byte]
+//@ func writeContext.HeaderEncoder :: ctx -> enc, buf
+//@   trusted
+//@   pure
+//@   ensures enc != nil && buf != nil
+//@ func encKV :: enc, k, v
+//@   trusted
+//@   assigns bytes.Buffer.view, lastEncoded
+//@   ensures forall b *bytes.Buffer :: b.view == old(b.view) || b.view == old(b.view) ++ lastEncoded
+//@   ensures len(lastEncoded) > 0
+
+//@ func (*writeResHeaders).writeHeaderBlock :: w, ctx, frag, firstFrag, lastFrag -> err
+//@   props C08
+//@   requires w != nil && ctx != nil
+//@   assigns unrestricted, lastWH, whCount
+//@   ensures [C08:end-stream-travels-on-the-headers-frame-however-the-block-is-split] firstFrag ==> whCount == old(whCount) + 1 && lastWH.StreamID == old(w.streamID) && lastWH.EndStream == old(w.endStream) && lastWH.EndHeaders == lastFrag && lastWH.BlockFragment == frag
+//@   ensures [C08:continuation-frames-add-no-headers-frame] !firstFrag ==> whCount == old(whCount)
+
+//@ func write100ContinueHeadersFrame.writeFrame :: w, ctx -> err
+//@   props C08
+//@   requires ctx != nil
+//@   assigns unrestricted, lastWH, whCount, lastEncoded, bytes.Buffer.view
+//@   ensures [C08:interim-response-block-holds-only-its-own-status-field] whCount == old(whCount) + 1 && lastWH.StreamID == w.streamID && !lastWH.EndStream && lastWH.EndHeaders && (lastWH.BlockFragment == lastEncoded || len(lastWH.BlockFragment) == 0)
